@@ -18,6 +18,49 @@ SCHED = "snaxc/ir/dart/scheduler.py"
 PASS = "snaxc/transforms/dart/dart_scheduler.py"
 
 
+def _resolve(fl: Flow, site: Site, e: ast.expr) -> ast.expr:
+    """site.expand, then locals with exactly one definition in the function replaced by it (a hoisted sub-expression)"""
+    from sa.flow import expand as _expand
+
+    e = site.expand(e)
+    for _ in range(3):
+        sub = {}
+        for nm in norm.free_names(e):
+            defs = fl.alldefs.get(nm, [])
+            if len(defs) == 1 and not (isinstance(defs[0], ast.Call) and isinstance(defs[0].func, ast.Name) and defs[0].func.id.startswith("__")):
+                sub[nm] = defs[0]
+        if not sub:
+            break
+        e = site.expand(_expand(e, sub))
+    return e
+
+
+def _linear(e: ast.expr) -> dict[str, int] | None:
+    """e as an integer linear combination {atom text: coefficient, "": constant}; None when a product of two non-constants occurs"""
+    if isinstance(e, ast.Constant) and isinstance(e.value, int) and not isinstance(e.value, bool):
+        return {"": e.value}
+    if isinstance(e, ast.UnaryOp) and isinstance(e.op, (ast.USub, ast.UAdd)):
+        a = _linear(e.operand)
+        return None if a is None else ({k: -v for k, v in a.items()} if isinstance(e.op, ast.USub) else a)
+    if isinstance(e, ast.BinOp) and isinstance(e.op, (ast.Add, ast.Sub)):
+        a, b = _linear(e.left), _linear(e.right)
+        if a is None or b is None:
+            return None
+        out = dict(a)
+        for k, v in b.items():
+            out[k] = out.get(k, 0) + (v if isinstance(e.op, ast.Add) else -v)
+        return out
+    if isinstance(e, ast.BinOp) and isinstance(e.op, ast.Mult):
+        a, b = _linear(e.left), _linear(e.right)
+        if a is not None and b is not None:
+            for x, y in ((a, b), (b, a)):
+                if set(x) <= {""}:
+                    c = x.get("", 0)
+                    return {k: v * c for k, v in y.items()}
+        return None
+    return {ast.unparse(e): 1}
+
+
 def run(repo: Repo, chk: Check) -> None:
     chk.explanation = (
         "Shape agreement (F1), guard dominance (F2) and dependency (F3) rules on the elementary schedule "
@@ -96,6 +139,17 @@ def div_guard(repo: Repo, chk: Check) -> None:
                         ok = True
                     if ast.unparse(idx) == ast.unparse(dim):
                         ok = True
+                    if not ok:
+                        # the same comparison on linear forms: dim == idx, or dim == idx + num_dims (an index counted from the end)
+                        li, ld = _linear(_resolve(fl, s, idx)), _linear(_resolve(fl, s, dim))
+                        if li is not None and ld is not None:
+                            r_ = ast.unparse(recv)
+                            for nd in (None, f"{r_}.num_dims", f"len({r_}.bounds)"):
+                                want = dict(li)
+                                if nd is not None:
+                                    want[nd] = want.get(nd, 0) + 1
+                                if {k: v for k, v in want.items() if v} == {k: v for k, v in ld.items() if v}:
+                                    ok = True
                 chk.result(ok, "C03.div-guard", f"{f.key}:tile_dim#{n}:same-dim", s.where(),
                            "the dimension tiled is the dimension whose bound was tested",
                            f"divisibility was tested on bound index {ast.unparse(idx) if idx is not None else '?'} but dimension {ast.unparse(dim)} is tiled")
